@@ -25,6 +25,8 @@ fn main() {
         "c06" => drivers::c06::drive(&rest),
         "c09" => drivers::c09::drive(&rest),
         "c11" => drivers::c11::drive(&rest),
+        "c13" => drivers::c13::drive(&rest),
+        "c13probe" => drivers::c13::probe(&rest),
         "c14" => drivers::c14::drive(&rest),
         "pipe" => drivers::pipe::drive(&rest),
         "c15" => drivers::c15::drive(&rest),
